@@ -118,7 +118,9 @@ func faultList(c cfg, K int64) []fault {
 	}
 	// pairs: an I/O failure closes the connection and a second call fails during the tear-down
 	for _, first := range []fault{{call: vsys.CWrite, errno: unix.EPIPE, k: 1, class: "accepted"}, {call: vsys.CRead, errno: unix.ECONNRESET, k: 2, class: "accepted"}} {
-		for _, sec := range []fault{{call: vsys.CEpollDel, errno: unix.ENOENT, k: 1, class: "accepted"}, {call: vsys.CClose, errno: unix.EIO, k: 1, class: "accepted"}} {
+		for _, sec := range []fault{{call: vsys.CEpollDel, errno: unix.ENOENT, k: 1, class: "accepted"}, {call: vsys.CClose, errno: unix.EIO, k: 1, class: "accepted"},
+			// the goodbye that the handler writes in OnClose fails as well (the connection really is broken)
+			{call: vsys.CWrite, errno: unix.EPIPE, k: 1, class: "accepted"}} {
 			f, s := first, sec
 			f.second = &s
 			out = append(out, f)
@@ -219,9 +221,7 @@ func runC18Case(c cfg, seed uint64, f fault, keys map[string]struct{}) (reached 
 			}
 			// a handler that says goodbye: the framework flushes what OnClose writes; on a broken connection this
 			// write fails in turn, which must not start another close
-			if vlib.Mix(cs.key)%2 == 0 {
-				_, _ = gc.Write([]byte("farewell"))
-			}
+			_, _ = gc.Write([]byte("farewell"))
 			return gnet.None
 		},
 	})
@@ -290,7 +290,12 @@ func runC18Case(c cfg, seed uint64, f fault, keys map[string]struct{}) (reached 
 	}
 	opened0, closed0 := mon.opened.Load(), mon.closed.Load()
 	// install the fault(s)
-	id := vsys.PlanAdd(&vsys.Rule{Call: f.call, FD: -1, Class: f.class, Index: f.k, Action: vsys.AErrno, Errno: f.errno, Once: true, Site: f.site})
+	firstRule := &vsys.Rule{Call: f.call, FD: -1, Class: f.class, Index: f.k, Action: vsys.AErrno, Errno: f.errno, Once: true, Site: f.site}
+	id := vsys.PlanAdd(firstRule)
+	if f.second != nil {
+		// installed together with the first fault: the tear-down it is meant for runs on the loop right away
+		vsys.PlanAdd(&vsys.Rule{Call: f.second.call, FD: -1, Index: f.second.k, Action: vsys.AErrno, Errno: f.second.errno, Once: true, After: firstRule})
+	}
 	var freshConn net.Conn
 	if f.fresh {
 		// the fault can only hit connections that are being accepted / registered: let k of them arrive
@@ -325,9 +330,7 @@ func runC18Case(c cfg, seed uint64, f fault, keys map[string]struct{}) (reached 
 	fr := vsys.Fired()[0]
 	_ = id
 	victimFD := fr.FD
-	if f.second != nil {
-		vsys.PlanAdd(&vsys.Rule{Call: f.second.call, FD: victimFD, Index: f.second.k, Action: vsys.AErrno, Errno: f.second.errno, Once: true})
-	}
+
 	keys[fmt.Sprintf("%s|%s|%s|site=%s", c.class(), vsys.CallName(f.call), errnoName(f.errno), fr.Site)] = struct{}{}
 	// who is the victim?
 	var victim *connState
